@@ -403,10 +403,10 @@ func parsePlan(s string) []planPoint {
 const (
 	planTimeout = 4 * time.Second
 	retryBase   = 4 * time.Millisecond
-	retryMax    = 16 * time.Millisecond
+	retryMax    = 18 * time.Millisecond // not base * 2^n: the clamp itself is exercised (4, 8, 16, 18, 18 …)
 	// configuration `w1`
 	retrySlowBase = 400 * time.Millisecond
-	retrySlowMax  = 800 * time.Millisecond
+	retrySlowMax  = 900 * time.Millisecond
 	// generous: they only fire in scripts that contain a silent fault / an unanswered CONNECT, and a
 	// loaded machine must not make them fire anywhere else
 	retryRespTimeout = 700 * time.Millisecond
@@ -425,6 +425,7 @@ type retryRun struct {
 	connRet                   string
 	retMu                     sync.Mutex
 	retFrozen                 bool
+	connErr                   error // what ReconnectClient.Connect returned during the script
 	connDone                  chan struct{}
 	planMiss                  []string
 	idStart                   map[int]uint32
@@ -444,6 +445,13 @@ func (r *retryRun) frozenConnRet() string {
 	defer r.retMu.Unlock()
 	r.retFrozen = true
 	return r.connRet
+}
+
+func (r *retryRun) oeField() string {
+	if strings.Contains(r.cfg, "e0") {
+		return "?"
+	}
+	return joinOr([]string{strings.Join(r.sc.onErr, "")}, "")
 }
 
 func isAppEv(ev string) bool {
@@ -509,6 +517,9 @@ func (r *retryRun) waitPlan(i int, want planPoint) {
 	}
 	for {
 		c := r.counters()
+		if strings.Contains(r.cfg, "e0") {
+			want.e = 0
+		}
 		if c.d >= want.d && c.w >= want.w && c.t >= want.t && c.e >= want.e && c.r >= want.r && c.h >= want.h && c.x >= want.x {
 			return
 		}
@@ -553,6 +564,10 @@ func runRetryScript(cfg, method, faultStr string, evs []string, plan []planPoint
 			sc.mu.Unlock()
 		}
 	}
+	if strings.Contains(cfg, "e0") {
+		// an application that installs no OnError callback: everything else must work the same
+		rc.OnError = nil
+	}
 	r.rc = rc
 	r.base, r.max = retryBase, retryMax
 	if strings.HasSuffix(cfg, "w1") {
@@ -560,6 +575,10 @@ func runRetryScript(cfg, method, faultStr string, evs []string, plan []planPoint
 		r.base, r.max = retrySlowBase, retrySlowMax
 	}
 	opts := []mqtt.ReconnectOption{mqtt.WithRetryClient(rc), mqtt.WithReconnectWait(r.base, r.max), mqtt.WithAlwaysResubscribe(cfg[3] == '1')}
+	if len(evs)%2 == 1 {
+		// options are independent of each other: any order must give the same client
+		opts = []mqtt.ReconnectOption{mqtt.WithAlwaysResubscribe(cfg[3] == '1'), mqtt.WithReconnectWait(r.base, r.max), mqtt.WithRetryClient(rc)}
+	}
 	if cfg[5] == '1' {
 		opts = append(opts, mqtt.WithTimeout(retryConnTimeout))
 	}
@@ -596,6 +615,7 @@ func runRetryScript(cfg, method, faultStr string, evs []string, plan []planPoint
 				// still-waiting Connect return: that is not part of the observed behaviour)
 				r.retMu.Lock()
 				if !r.retFrozen {
+					r.connErr = err
 					if err != nil {
 						r.connRet = "err"
 					} else if sp {
@@ -934,7 +954,7 @@ func (r *retryRun) render(stuck bool) string {
 	}
 	_ = pend
 	return strings.Join(conns, " ") + fmt.Sprintf(" dl=%s bs=%s ak=%s oe=%s hd=%s tt=%d tr=%d qr=%s qt=%s dials=%d ret=%s rej=%d",
-		joinOr(dl, ","), joinOr(bs, ","), joinOr(s.broker.acked, ","), joinOr([]string{strings.Join(s.onErr, "")}, ""), joinOr(s.handled, ","),
+		joinOr(dl, ","), joinOr(bs, ","), joinOr(s.broker.acked, ","), r.oeField(), joinOr(s.handled, ","),
 		st.TotalTasks, st.TotalRetries, qr, qt, s.dialReq, r.frozenConnRet(), r.rejected)
 }
 
